@@ -11,6 +11,7 @@ mod e5;
 mod e6;
 mod watch;
 mod names;
+mod upper_table;
 mod ops;
 mod refmodel;
 mod report;
